@@ -20,7 +20,7 @@ def sh(*a, **k):
 
 
 def check(pid):
-    r = sh(f"{VERIF}/bin/wacheck", "check", pid, "--tier", "quick", cwd=VERIF, env=env)
+    r = sh(os.environ.get("BENIGN_BIN", f"{VERIF}/bin/wacheck"), "check", pid, "--tier", "quick", cwd=VERIF, env=env)
     out = r.stdout + r.stderr
     rules = sorted(set(re.findall(r"^\s+(?:VIOLATION|UNDECIDED): \[([^\]]+)\]", out, re.M)))
     first = [l.strip()[:500] for l in out.splitlines() if l.strip().startswith(("VIOLATION:", "UNDECIDED:"))][:4]
